@@ -5,7 +5,7 @@
       [bare_safe]            yaml.rs bare_safe (tables from Gen/GenYaml.v, control skeleton pinned by
                              the translator)
       [ystr] [ywr] [ystream] yaml.rs manifest_yaml_ex_buf + evaluator manifest.rs YamlStreamFormat
-      [bare_allowed] [tkey] [tval] [tint] [toml_manifest]   toml.rs
+      [bare_allowed] [tesc] [tkey] [tval] [tint] [toml_manifest]   toml.rs
       [pywr] [pyvars]        python.rs
       [xml_escape_impl] [jsonml_of] [xml_write]             xml.rs
       [ini_manifest]         ini.rs
@@ -89,6 +89,9 @@ Definition c_date (k : bytes) : bool := all_in yaml_cls_date k && Nat.eqb (count
 Definition c_int (k : bytes) : bool := all_in yaml_cls_int k && Nat.ltb (count 45 k) 2.
 Definition c_bin (k : bytes) : bool :=
   all_in yaml_cls_bin k && (starts_with [48; 98] k || starts_with [45; 48; 98] k) && Nat.ltb 2 (length k).
+(** `key.len() > 2 && key.starts_with("0o") && key[2..].chars().all(..)` *)
+Definition c_oct (k : bytes) : bool :=
+  Nat.ltb 2 (length k) && starts_with [48; 111] k && all_in yaml_cls_oct (skipn 2 k).
 Definition c_float (k : bytes) : bool :=
   all_in yaml_cls_float k && Nat.ltb (count_u 101 k) 2 && Nat.ltb (count 45 k) 3 && Nat.leb (count 46 k) 1.
 Definition c_hex (k : bytes) : bool :=
@@ -102,6 +105,7 @@ Definition bare_safe (k : bytes) : bool :=
   else if c_date k then false
   else if c_int k then false
   else if c_bin k then false
+  else if c_oct k then false
   else if c_float k then false
   else if c_hex k then false
   else true.
@@ -353,10 +357,6 @@ Definition yaml_plain_ok (s : bytes) : Prop :=
 Definition yaml_plain_okb (s : bytes) : bool :=
   plain_syntax s && forallb (fun r => negb (rmatch r s)) yaml_resolvers.
 
-(** the two input classes on which bare_safe is unsound (findings):
-    YAML 1.2 octal integers `0o[0-7]+`, and the document-end marker `...` *)
-Definition known_yaml_bare (s : bytes) : bool := rmatch re_oct12 s || beq s [46; 46; 46].
-
 (** block-scalar-safe class of the property's quantifier: a multi-line string that the `|` / `|-`
     literal block scalar with auto-detected indentation and clip / strip chomping denotes exactly:
     printable characters only (tab, 0x20-0x7E, >= 0xA0 lead/continuation bytes; no CR, no C0/DEL),
@@ -382,8 +382,18 @@ Definition block_safe (s : bytes) : bool :=
 
 (* ------------------------------------------------------------------ IMPL-MODEL *)
 
-Definition bare_allowed (s : bytes) : bool := all_in toml_cls_bare s.
-Definition tkey (k : bytes) : bytes := if bare_allowed k then k else esc k.
+Definition bare_allowed (s : bytes) : bool := negb (is_nil s) && all_in toml_cls_bare s.
+
+(** escape_string_toml_buf: JSON escaping, then `tmp.replace(C, R)` over the escaped text when the
+    string contains the character C (U+007F) *)
+Definition trepl (out : bytes) : bytes :=
+  flat_map (fun c => if c =? toml_replaced then toml_replacement else [c]) out.
+Definition tesc (s : bytes) : bytes :=
+  if existsb (fun c => c =? toml_replaced) s then trepl (esc s) else esc s.
+(** reference form: what one input byte turns into *)
+Definition tesc1 (b : N) : bytes := trepl (esc1 b).
+
+Definition tkey (k : bytes) : bytes := if bare_allowed k then k else tesc k.
 Definition tpath (p : list bytes) : bytes := join [46] (map tkey p).
 
 Record topts := mkT { t_pad : bytes; t_skip : bool }.
@@ -403,7 +413,7 @@ Fixpoint tval (o : topts) (inline : bool) (cur : bytes) (v : jval) : option byte
   match v with
   | JBool true => Some [116; 114; 117; 101]
   | JBool false => Some [102; 97; 108; 115; 101]
-  | JStr s => Some (esc s)
+  | JStr s => Some (tesc s)
   | JNum tok => Some tok
   | JArr xs =>
       match omap (tval o true []) xs with
@@ -588,12 +598,12 @@ Definition dq_seq_ok (d : dialect) (sq : bytes) (b : N) : bool :=
   | _ => false
   end.
 
-Definition dq_entry_ok (d : dialect) (bad : N -> bool) (b : N) : bool := bad b || dq_seq_ok d (esc1 b) b.
-Definition dq_table_ok (d : dialect) (bad : N -> bool) : bool :=
-  forallb (dq_entry_ok d bad) (map N.of_nat (seq 0 256)).
+Definition dq_entry_ok (d : dialect) (f : N -> bytes) (bad : N -> bool) (b : N) : bool := bad b || dq_seq_ok d (f b) b.
+Definition dq_table_ok (d : dialect) (f : N -> bytes) (bad : N -> bool) : bool :=
+  forallb (dq_entry_ok d f bad) (map N.of_nat (seq 0 256)).
 
-(** the one byte JSON escaping leaves raw although TOML forbids it (finding) *)
-Definition toml_bad (b : N) : bool := b =? 127.
+(** the byte the TOML escaper replaces after JSON escaping *)
+Definition toml_bad (b : N) : bool := b =? toml_replaced.
 Definition no_bad (_ : N) : bool := false.
 
 (* ================================================================== Python *)
